@@ -1,6 +1,6 @@
 /-
   Lemmas.ReadOnly — the handler models of the read-category commands issue reading primitives only
-  (syntactic fact, handler by handler). SUNION is *not* among them: it mutates an operand.
+  (syntactic fact, handler by handler). SUNION is among them since Union builds a new set.
 -/
 import SugarModel.Lemmas.Pure
 import SugarModel.Lemmas.NoFlush
@@ -100,11 +100,13 @@ theorem handleSMIsMember_ro (c : Ctx) (cmd : List Bytes) : (handleSMIsMember c c
 theorem handleSRandMember_ro (c : Ctx) (cmd : List Bytes) : (handleSRandMember c cmd).ReadOnly := by unfold handleSRandMember; ro
 theorem handleSDiff_ro (c : Ctx) (cmd : List Bytes) : (handleSDiff false c cmd).ReadOnly := by
   unfold handleSDiff; ro
-theorem sinterTail_ro (m : Nat) (hm : m = 0 ∨ m = 2) (l : Int) (a d : Bytes) (s : List (Nat × List Bytes)) :
-    (sinterTail m l a d s).ReadOnly := by
-  rcases hm with rfl | rfl <;> (unfold sinterTail; ro) <;> simp_all
+theorem sinterTail_ro (m : Nat) (l : Int) (s : List (Nat × List Bytes)) : (sinterTail m l s).ReadOnly := by
+  unfold sinterTail; ro
 theorem handleSInter_ro (m : Nat) (hm : m = 0 ∨ m = 2) (c : Ctx) (cmd : List Bytes) : (handleSInter m c cmd).ReadOnly := by
-  unfold handleSInter; ro <;> exact sinterTail_ro m hm _ _ _ _
+  rcases hm with rfl | rfl <;> (unfold handleSInter handleSInterRead; ro) <;> exact sinterTail_ro _ _ _
+/-- SUNION builds its answer from one GetValues call and nothing else: no operand is written -/
+theorem handleSUnion_ro (c : Ctx) (cmd : List Bytes) : (handleSUnion false c cmd).ReadOnly := by
+  unfold handleSUnion; ro <;> simp_all
 
 
 /-! ### sorted-set readers -/
